@@ -49,7 +49,7 @@ def optPairs (attrs : List Attr) (f : Attr → Option Val) : Json :=
 def snapJson (attrs : List Attr) (objs : List Obj) (ss : Sess) : Json :=
   Json.mkObj [
     ("alive", .bool ss.alive), ("inTxn", .bool ss.inTxn), ("immediate", .bool ss.immediate),
-    ("toSave", jNats ss.toSave), ("forUpd", jNats (objs.filter ss.forUpd)),
+    ("toSave", jNats ss.toSave), ("qcache", jNat ss.qcache.length), ("forUpd", jNats (objs.filter ss.forUpd)),
     ("objs", .arr ((objs.filter (fun o => (ss.objs o).present)).map (fun o =>
       let os := ss.objs o
       Json.mkObj [("o", jNat o), ("status", statusJson os.status),
